@@ -217,6 +217,15 @@ def run(tier: str, seed: int) -> int:
                        'and seeded large writes: every crash / fault / body-exception point TLC derives from the reference run')
         known, new = core.classify(PROP, [sig_of(m) for m in allm])
         if not new:
+            # coverage handshake: one logged run per enumerated schedule / injection point
+            want_runs = {'aw-bytes/path1': len(paths1), 'aw-text/path1': len(paths1), 'aw-bytes/path2': len(sel2),
+                         'aw-text/path2': len(sel2t)}
+            got_inject = sum(v for k, v in kinds.items() if k.endswith('/inject'))
+            for k, v in want_runs.items():
+                if kinds.get(k, 0) != v:
+                    raise MachineryError(f'coverage handshake: {kinds.get(k, 0)} runs logged for {k}, {v} schedules enumerated')
+            if got_inject != npoints:
+                raise MachineryError(f'coverage handshake: {got_inject} injected runs logged, TLC derived {npoints} points')
             # vacuity is judged only on a run without violations (a violation is reported as such)
             missing = {f'{a}:{b}' for a, b in EXPECTED_OPS} - set(impl_ops)
             if missing:
